@@ -222,7 +222,7 @@ class FpyPath(Path):
         if self.bounded:
             p = self.precision()
             mode = self.rounding_mode()
-            if mode != 'RNE':
+            if mode != 'RNE' or self.ex.current.opts.get('fpy_rnd') == 'param':
                 from .fpyround import rnd_fix, rnd_frac
                 if isinstance(v, (int, Fraction)):
                     return rnd_frac(Fraction(v), p, mode)
